@@ -39,6 +39,13 @@ PROPS = {
                 families=[eng("engine", "C04", 1200, 20000, ["nil", "issues", "dest", "calls", "panic"])]),
     "C05": dict(theorems=["C05_engine_computes_semantics"], cone=ENGINE_CONE, rule=ENGINE_RULE,
                 families=[eng("engine", "C05", 1200, 20000, ["nil", "issues", "dest", "panic"])]),
+    "C06": dict(theorems=["C06_try_provider_never_panics", "C06_lookup_never_panics", "C06_field_name_never_panics", "C06_parse_struct_never_panics",
+                          "C06_engine_total_on_all_data", "C06_legacy_named_map_panics", "C06_legacy_unexported_field_panics", "C06_legacy_long_key_panics"],
+                cone=["Model/Dyn.v", "Proofs/DynP.v"] + ENGINE_CONE,
+                rule="a grammar over Go dynamic types at a struct position (map[string]any/string/int/float64/bool and their named versions, maps with named string keys, non-string keys, named / interface / slice element types, structs with unexported fields named like schema keys, pointers up to three levels with nil at every level, typed nils, every other kind incl. NaN/Inf, channels, funcs, invalid UTF-8) parsed under recover() by a well-configured struct schema with a 48-byte key; JSON documents of every top-level shape through zjson; one schema reused with two destination layouts; plus the engine and front-end families (wrong types, {} , malformed bodies) with the panic projection; distinct = distinct dynamic types",
+                families=[sat("dyn", "dyn", 600, 6000, ["panic", "model_expects_panic", "root_coerce", "presence", "reuse"], shard=300),
+                          eng("engine", "default", 800, 12000, ["panic"]),
+                          dict(name="fe", family="fe", profile="fe", quick=500, thorough=8000, tags=["panic"])]),
     "C07": dict(theorems=["C07_reinit_zog_issue", "C07_reinit_ctx_issue", "C07_reinit_issue_from_test", "C07_reinit_issue_from_coerce", "C07_reinit_exec_ctx",
                           "C07_reinit_schema_ctx", "C07_reinit_validate_schema_ctx", "C07_fresh_ctx_has_no_values", "C07_pools_stay_linear",
                           "C07_held_issues_are_distinct_and_not_pooled", "C07_result_is_a_function_of_this_call", "C07_legacy_collect_map_refuted"],
